@@ -9,6 +9,8 @@ if ! git apply --check "$P" 2>/dev/null; then echo "patch does not apply: $P"; e
 git apply "$P"
 trap 'git -C /repo checkout -- . ' EXIT
 for id in "$@"; do
+  # a run against a changed tree must not leave its evidence behind
+  cp -f /verif/evidence/$id.json /var/tmp/evidence_backup_$id.json 2>/dev/null
   echo "=== $id on $(basename $(dirname $P))/$(basename $P)"
   /verif/bin/check "$id" "${TIER:-quick}" > /var/tmp/mut_out_$id.txt 2>&1
   echo "exit=$?"
@@ -16,5 +18,6 @@ for id in "$@"; do
   grep -E "^(VIOLATION|KNOWN|C[0-9]+ )" /var/tmp/mut_out_$id.txt | cut -c1-260 | head -8
   # record next to the patch: what the check reported on the changed tree
   rec="$(dirname $P)/tried_$(basename $P .diff)_$id.txt"
+  [ -f /var/tmp/evidence_backup_$id.json ] && mv -f /var/tmp/evidence_backup_$id.json /verif/evidence/$id.json
   { echo "check=$id tier=${TIER:-quick} seed=${VERIF_SEED:-1}"; grep -E "^C[0-9]+ (HELD|VIOLATED|INCONCLUSIVE)" /var/tmp/mut_out_$id.txt | tail -1; grep -A1 -E "^VIOLATION" /var/tmp/mut_out_$id.txt | grep -v "^--" | cut -c1-400 | head -12; } > "$rec"
 done
